@@ -110,11 +110,36 @@ def range_case(sc):
     return 1 if accepted != sc["expect_accept"] else 0
 
 
+def compare_scaled(sc, base_steps, twin_steps, k):
+    """the step is linear in (u_n, v_n, a_n, loads, prescribed values): the scenario with all of them multiplied by
+    s = 2^k must return exactly s times the result (power-of-two scaling commutes with every float operation)."""
+    s = 2.0 ** k
+    bad = []
+    for n, (b, t) in enumerate(zip(base_steps, twin_steps)):
+        for f in ("u", "v", "a"):
+            ref = [s * x for x in b["new"][f]]
+            sc_ = O.scale(ref)
+            m = max(abs(p - q) for p, q in zip(t["new"][f], ref))
+            if m > 1e-12 * sc_:
+                i = max(range(len(ref)), key=lambda j: abs(t["new"][f][j] - ref[j]))
+                bad.append("step %d %s: scaling: with states, loads and prescribed values times 2^%d the returned %s[%d] = %.12e but 2^%d x (unscaled result) = %.12e "
+                           "(homogeneity of the step; rel. diff %.3e)" % (n, sc["steps"][n]["algo"], k, f, i, t["new"][f][i], k, ref[i], m / sc_ if sc_ else float("inf")))
+                break
+    return bad
+
+
 def main(sc):
     if sc.get("kind") == "range":
         return range_case(sc)
     steps = c05_run.run_scenario(sc)
     bad = check_steps(sc, steps)
+    tw = sc.get("scale_twin")
+    if tw:
+        base_steps = c05_run.run_scenario(tw["base"])
+        more = compare_scaled(sc, base_steps, steps, tw["k"])
+        for b in more[:6]:
+            print(b)
+        bad += more
     print("steps run: %d; violated predicates: %d" % (len(steps), len(bad)))
     if not bad:
         print("all documented relations hold on the implementation for this input")
